@@ -21,6 +21,7 @@ type world struct {
 	cls     map[string]int // class counters of the case being evaluated
 	danger  string         // shape that must not be executed in-process (listed non-terminating finding)
 	discard string         // the case is outside the generator's contract (self-check failed)
+	memo    map[string]classified
 }
 
 const defaultScheme = "dd"
@@ -94,7 +95,7 @@ func (w *world) resolveRef(seg Seg, stack []string) refInfo {
 		}
 	}
 	nt := nb.String()
-	if strings.Contains(nt, "$") {
+	if strings.Contains(nt, "$") || strings.Contains(seg.Scheme, "$") {
 		dollar = true
 	}
 	scheme := seg.Scheme
@@ -122,6 +123,12 @@ func (w *world) resolveRef(seg Seg, stack []string) refInfo {
 		ri.special = "provider"
 	default:
 		ri.entry = w.table[ri.key]
+		if k := ri.entry.Val.K; k == "seq" || k == "raw" {
+			// a text the provider itself rejects (uint64, non-string map keys, …) is outside the contract
+			if kind, _ := w.classifyEntry(ri.entry); kind == "unsupported" {
+				w.discard = "unsupported-yaml-type"
+			}
+		}
 	}
 	return ri
 }
@@ -204,7 +211,7 @@ func (w *world) flatten(seq []Seg, stack []string) []item {
 				}
 				if ri.entry.Val.K == "map" || ri.entry.Val.K == "list" {
 					w.count("embedded-struct")
-				} else if k, _ := classify(renderVal(ri.entry.Val)); k != "string" {
+				} else if k, _ := w.classifyEntry(ri.entry); k != "string" {
 					w.count("embedded-typed-text")
 				}
 				out = append(out, item{"refstart", ri.uri})
@@ -290,8 +297,10 @@ func analyse(items []item) ctxRes {
 		}
 	}
 	if r.ex != "" {
-		r.err = ""
-		r.knownA = false
+		r.err = "" // knownA stays: the rewritten escaped occurrence can turn into a failing reference
+	}
+	if r.ex == "splice-ambiguous" {
+		r.errMay = true // pasted text can form references that were never written
 	}
 	r.text = b.String()
 	return r
@@ -352,6 +361,23 @@ func classify(text string) (kind string, v any) {
 	return "unsupported", nil
 }
 
+type classified struct {
+	kind string
+	v    any
+}
+
+func (w *world) classifyEntry(e *Entry) (string, any) {
+	if w.memo == nil {
+		w.memo = map[string]classified{}
+	}
+	if c, ok := w.memo[e.Key]; ok {
+		return c.kind, c.v
+	}
+	k, v := classify(renderVal(e.Val))
+	w.memo[e.Key] = classified{k, v}
+	return k, v
+}
+
 func supportedDeep(v any) bool {
 	switch x := v.(type) {
 	case nil, int, float64, bool, string:
@@ -381,6 +407,30 @@ func isWhole(w *world, seq []Seg) bool {
 	return len(seq) == 1 && seq[0].K == "ref" && (seq[0].Scheme != "" || w.def)
 }
 
+// becomesWhole: every segment is a reference and at most one of them expands
+// to a non-empty text: once the others have vanished (ReplaceAll removes every
+// occurrence of an empty one at once) what is left IS a whole-value reference.
+func (w *world) becomesWhole(seq []Seg, stack []string) bool {
+	n, nonEmpty := 0, 0
+	for _, s := range seq {
+		if s.K == "lit" && s.T == "" {
+			continue
+		}
+		n++
+		if !isWhole(w, []Seg{s}) {
+			return false
+		}
+		c := analyse(w.flatten([]Seg{s}, stack))
+		if c.ex != "" || c.err != "" {
+			return true // unknown: stay on the safe side
+		}
+		if c.text != "" {
+			nonEmpty++
+		}
+	}
+	return n >= 2 && nonEmpty <= 1
+}
+
 // evalStr evaluates seq as a string with embedded references.
 func (w *world) evalStr(seq []Seg, stack []string) ctxRes {
 	return analyse(w.flatten(seq, stack))
@@ -391,6 +441,11 @@ func (w *world) evalSeq(seq []Seg, stack []string, depth int) Res {
 	var r Res
 	if !isWhole(w, seq) {
 		c := w.evalStr(seq, stack)
+		if c.ex == "" && c.err == "" && w.becomesWhole(seq, stack) {
+			// "${empty}${x}": once the leading references have expanded to nothing the rest IS a
+			// whole-value reference; the statement does not say which reading applies
+			c.ex = "becomes-whole-value"
+		}
 		r.absorb(c, true, true)
 		r.Typed, r.Str = c.text, c.text
 		return r
@@ -428,7 +483,7 @@ func (w *world) evalSeq(seq []Seg, stack []string, depth int) Res {
 	}
 	es := entrySeq(e.Val)
 	text := renderSeq(es)
-	kind, v := classify(text)
+	kind, v := w.classifyEntry(e)
 	switch kind {
 	case "string":
 		return w.evalSeq(es, nstack, depth+1)
@@ -508,8 +563,8 @@ func (w *world) evalStruct(v Val, stack []string, depth int) Res {
 			}
 			r.ErrMay = r.ErrMay || lr.ErrMay
 			r.KnownA = r.KnownA || lr.KnownA
-			if lr.Wrapped || lr.Leak {
-				r.Leak = true
+			if lr.Wrapped || lr.Leak || lr.TEx != "" {
+				r.Leak = true // (an unasserted leaf may end up as a whole-value reference too)
 			}
 			return lr.Typed
 		case "raw":
